@@ -5,6 +5,7 @@ Part 1: lists / min / max / `upd`.
 Part 2: `Exact` — invariant behind `sub_request_exact` (any trace; `fx = true` current code, `fx = false` pre-fix code).
 Part 3: `Iso` — simulation behind `client_isolation`.
 Part 4: `Seq` — invariant behind the historical `outer_span_partial_pinned` (pre-fix code, no task creation inside a request).
+Part 6: `collectGo_eq` — the list built by `Composite.run_stream`.
 Part 5: `PInv` — invariant behind `outer_span` (current code = `fx = true`, any structured concurrency).
 -/
 namespace Ctx
@@ -2382,6 +2383,16 @@ theorem pinv_settled {s : St} (hi : PInv s) {c : Nat} {r : Rec} (hc : s.ctxs c =
       obtain ⟨m', hm', hb⟩ := hcov x hx
       rw [hg] at hm'; cases hm'
       exact hb
+
+/-! ## Part 6: the timing records collected by `Composite.run_stream` -/
+
+theorem collectGo_eq (items : Items) : ∀ pending, collectGo items pending = pending.flatten ++ allOps items := by
+  induction items with
+  | nil => intro pending; simp [collectGo, allOps]
+  | op id rest ih => intro pending; simp [collectGo, allOps, ih]
+  | stream sub rest ihs ihr =>
+    intro pending
+    simp [collectGo, allOps, ihs, ihr, List.flatten_append]
 
 /-! ## evaluating observations on concrete runs (used by the witnesses in RallyProps/C18.lean) -/
 
